@@ -47,6 +47,7 @@ INVARIANTS
   DeclaredRoEndsRo
   WritableIffDecl
   MaskedRevealNothing
+  OnlyDeclaredWritable
 ALIAS Alias
 CHECK_DEADLOCK FALSE
 """ % (menu, maxlen, opts, envs)
@@ -287,6 +288,8 @@ def key_of(b, o):
         k = "extra-visible:%s:/%s" % (c["impl"], "/".join(b["p"][:1]))
     if b["w"] == "host-canary-reachable":
         k = "host-canary-reachable:%s:%s" % (c["impl"], "old_root" if b["k"].startswith("/old_root") else "direct")
+    if b["w"] == "mask-exposed-to-next-program":
+        k = "mask-exposed-to-next-program:%s:devnull=%s:%s" % (c["impl"], str(c["devnull"]).lower(), "/".join(b["p"][:1]))
     if b["w"] == "receives-propagation":
         k = "receives-propagation:%s:%s" % (c["impl"], b["k"])
     if b["w"] == "launch-failed":
